@@ -19,6 +19,7 @@ const (
 	clauseRewire = "dependants of a de-duplicated or merged request depend on the surviving request"
 	clausePanic  = "postprocessing does not panic"
 	clauseTerm   = "postprocessing terminates"
+	clauseReuse  = "the fetch tree of a plan does not depend on the plans the Processor processed before"
 )
 
 const maxID = 8 // ids are < 8 so that id sets fit into a uint8
@@ -265,6 +266,24 @@ func analyzeTree(root *resolve.FetchTreeNode) *treeInfo {
 	walk(root, 0)
 	ti.shape = sb.String()
 	return ti
+}
+
+// signature renders everything the executor sees of the organised tree: the
+// shape and the dependency ids of every leaf (used to compare a reused
+// Processor with a fresh one).
+func (ti *treeInfo) signature() string {
+	var sb strings.Builder
+	sb.WriteString(ti.shape)
+	for i := range ti.leaves {
+		l := &ti.leaves[i]
+		deps := append([]int(nil), l.finalDeps...)
+		sort.Ints(deps)
+		fmt.Fprintf(&sb, " %d<%v", l.fetchID, deps)
+	}
+	if ti.malformed != "" {
+		sb.WriteString(" malformed: " + ti.malformed)
+	}
+	return sb.String()
 }
 
 // treePrecedes is formulation A: the lowest common ancestor of the two leaves
